@@ -113,6 +113,26 @@ func (f *Frame) evalExpr(e ast.Expr, st *State) Val {
 	case *ast.CompositeLit:
 		return f.evalCompositeLit(x, st)
 	case *ast.TypeAssertExpr:
+		// x.(*T) on an interface that holds a pointer: the pointer itself (dynamic types are not
+		// modelled: a failing assertion would panic, which is outside the properties decided here)
+		if x.Type != nil {
+			if _, isPtr := f.typeOf(x.Type).Underlying().(*types.Pointer); isPtr {
+				switch xv := f.evalExpr(x.X, st).(type) {
+				case PtrV:
+					in.note("type assertion to a pointer type assumed to succeed (dynamic types are not modelled)")
+					return xv
+				case Sc:
+					if xv.T.Sort == "Iface" {
+						// an opaque interface value viewed as *T: an arbitrary T behind a non-nil pointer
+						pt := f.typeOf(x.Type).Underlying().(*types.Pointer)
+						c := in.newCell("asserted", CVar, pt.Elem())
+						st.store[c] = in.freshVal("asserted", pt.Elem(), f)
+						in.note("type assertion to a pointer type assumed to succeed (dynamic types are not modelled); the pointee is arbitrary")
+						return PtrV{To: c, Nil: TFalse}
+					}
+				}
+			}
+		}
 		in.unsupported(x.Pos(), "type assertion")
 	case *ast.FuncLit:
 		in.unsupported(x.Pos(), "function literal as value")
